@@ -139,6 +139,7 @@ type Tx struct {
 type Block struct {
 	DtMs int64 `json:"dt_ms"`
 	// DtRule 1: advance to the deposit-zero time of the DtRef-th stream, plus (DtMs mod 3 - 1) seconds.
+	// DtRule 2: advance into the second that holds that deposit-zero time (before, at or after it by milliseconds).
 	DtRule int `json:"dt_rule,omitempty"`
 	DtRef  int `json:"dt_ref,omitempty"`
 	Txs    []Tx `json:"txs"`
